@@ -447,10 +447,11 @@ func takeSnapshotTrim(p *Program, id string, root *ssa.Function) []Obligation {
 		return st
 	}
 	a.Post = func(a *Analysis, f *Frame, in ssa.Instruction, st State) State {
-		if s, fld := storeField(in); s != nil && fld == lii && p.Canon(f, s.Val).S == labelIdx {
+		// (the label is a value captured before the window: a helper that receives it sees it under its captured name)
+		if s, fld := storeField(in); s != nil && fld == lii && ValueName(p.Canon(f, s.Val).S) == labelIdx {
 			return sp.Assign(st, 1, 1)
 		}
-		if s, fld := storeField(in); s != nil && fld == p.Field("Raft.lastIncludedTerm") && p.Canon(f, s.Val).S == labelTerm {
+		if s, fld := storeField(in); s != nil && fld == p.Field("Raft.lastIncludedTerm") && ValueName(p.Canon(f, s.Val).S) == labelTerm {
 			return sp.Assign(st, 2, 1)
 		}
 		return st
@@ -461,7 +462,7 @@ func takeSnapshotTrim(p *Program, id string, root *ssa.Function) []Obligation {
 		if strings.HasPrefix(o.Key, "store") {
 			obs := evalObs(a, id, []*Observation{o}, func(_ *Observation, pt int) bool { return sp.Val(pt, 0) == GT }, []int{0},
 				"the snapshot boundary moves forward only (label > lastIncludedIndex re-tested after the window)")
-			if o.Extra["value"] != labelIdx {
+			if ValueName(o.Extra["value"]) != labelIdx {
 				obs[0].Verdict, obs[0].Detail = Violated, "lastIncludedIndex := "+o.Extra["value"]+", must be the label of the snapshot just written ("+labelIdx+")"
 			}
 			out = append(out, obs...)
@@ -469,7 +470,7 @@ func takeSnapshotTrim(p *Program, id string, root *ssa.Function) []Obligation {
 		}
 		obs := evalObs(a, id, []*Observation{o}, func(_ *Observation, pt int) bool { return sp.Val(pt, 1) == 1 && sp.Val(pt, 2) == 1 }, []int{1, 2},
 			"the log is compacted only after the boundary (index and term) was moved to the new snapshot's label")
-		if arg := o.Extra["arg"]; arg != "r.lastIncludedIndex" && arg != labelIdx {
+		if arg := o.Extra["arg"]; arg != "r.lastIncludedIndex" && ValueName(arg) != labelIdx {
 			obs[0].Verdict, obs[0].Detail = Violated, "Log.Compact("+arg+"), must compact at the new snapshot's label"
 		}
 		out = append(out, obs...)
@@ -544,7 +545,9 @@ func ruleSender() *Rule {
 				}
 			})
 			stateAtom := p.StateAtom()
-			atoms := []*Atom{stateAtom, BoolAtom("responderIsMember", "r.configuration.Members[p0]#1")}
+			atoms := []*Atom{stateAtom, BoolAtom("responderIsMember", "r.configuration.Members[p0]#1"),
+				// the collecting loop starts at the follower's nextIndex, which the snapshot fall-back has bounded from below
+				CmpAtom("nextIndex?lastInclIdx", "r.followers[p0].nextIndex", "r.lastIncludedIndex")}
 			iSucc, iDone, iBW := -1, -1, -1
 			if success != "" {
 				iSucc = len(atoms)
